@@ -6,6 +6,7 @@
 //   scriptfull ...        same, the result is printed untruncated
 //   names                 names of the variables and biases the module holds
 //   oncallback w1\x1f..   queue a script command that is run inside the scripted-forces callback of every later step
+//   vecparse n text       cvm::vector1d<real>(n).from_simple_string(text)
 //   objresults            the in-place (`obj`) variants of colvarscript::set_result_* vs the string result
 //   semdump               the numbers the module / proxy hold now (SEMMOD / SEMCV / SEMBIAS lines, hex)
 //   writefile F text      write text ('\x1e' = newline) to file F
@@ -181,6 +182,26 @@ struct c20_session : public vsim_session {
         }
       }
       o << "\n";
+      return true;
+    }
+    if (cmd == "vecparse") {
+      // vector1d<real>::from_simple_string on a vector of exactly n elements (capacity n): the parser behind every vector-valued script argument
+      size_t const n = atoi(a[0].c_str());
+      std::string rest = rest_of_line(cmd);
+      size_t sp = rest.find(' ');
+      std::string text = sp == std::string::npos ? std::string("") : rest.substr(sp + 1);
+      cvm::vector1d<cvm::real> v(n);
+      for (size_t i = 0; i < n; i++) v[i] = -1.0 - double(i);
+      // a sentinel right behind the last element (inside the capacity, so that this harness itself stays within its allocation):
+      // the parser must not touch it
+      v.data_array().reserve(n + 1);
+      double const sentinel = -12345.678;
+      double *raw = v.data_array().data();
+      raw[n] = sentinel;
+      int const rc = v.from_simple_string(text);
+      bool const overrun = (v.data_array().data() != raw) || (raw[n] != sentinel);
+      o << "VECPARSE n=" << n << " rc=" << (rc == COLVARS_OK ? "ok" : "error") << " size=" << v.size() << " overrun=" << (overrun ? 1 : 0)
+        << " values=" << v.to_simple_string() << "\n";
       return true;
     }
     if (cmd == "objresults") {
